@@ -27,7 +27,9 @@ MANIFEST_ENTRY = {
     'technique': 'exhaustive geometry enumeration against the parity-check '
                  'matrix + instrumented automaton runs (method wrapped from '
                  'the harness) on enumerated weight<=2 and Hypothesis-drawn Z '
-                 'errors; invariant checked after every sweep step',
+                 'errors under sweep budgets 1, 2, 3, 4, 32; invariant checked '
+                 'after every sweep step and at the stop (cleared pattern => '
+                 'zero face syndrome of error + returned correction)',
     'level_text': 'Every edge of every lattice up to the bound is checked '
                   'against H; every sweep step of every generated decode is '
                   'checked against the independently recomputed residual face '
